@@ -108,6 +108,35 @@ def outer(n):
     return tuple(k * i for i in range(n) if i % 2 == 0)
 RESULT = (first, log, got, tail, K().m([1, 2]), pairs, outer(5), list(x for x in ()))
 ''', "(True, [1, 1, 20, 3], [1, 20], 'IndexError after two elements', 13, [(1, 'x'), (1, 'y'), (2, 'y')], (0, 20, 40), [])"),
+    ("lru-cache-evicts-least-recently-used", '''
+import functools
+calls = []
+@functools.lru_cache(maxsize=2)
+def f(x):
+    calls.append(x)
+    return x * 2
+r = [f(1), f(2), f(1), f(3), f(1), f(2)]          # f(3) evicts 2 (1 was used more recently); f(2) is computed again and evicts 3
+@functools.lru_cache
+def g(x):
+    calls.append(("g", x))
+    return x
+for i in range(130):
+    g(i)
+n1 = len(calls)
+g(129); g(5)                                       # hits (5 is still among the last 128)
+n2 = len(calls)
+g(0)                                               # evicted: computed again
+n3 = len(calls)
+@functools.cache
+def h(x):
+    calls.append(("h", x))
+    return x
+for i in range(130):
+    h(i)
+n4 = len(calls)
+h(0)
+RESULT = (r, calls[:5], n1, n2 - n1, n3 - n2, len(calls) - n4)
+''', "([2, 4, 2, 6, 2, 4], [1, 2, 3, 2, ('g', 0)], 134, 0, 1, 0)"),
     ("bytearray-buffer", '''
 buf = bytearray()
 alias = buf
